@@ -214,7 +214,7 @@ def write_evidence(ctx: Ctx, mod: T.Any, wall: float, known_matched: T.List[str]
     samples = [f"{o['rule']}: {o['what']} -> {'discharged' if o['ok'] else 'FAILED'}" for o in obl[:: max(1, len(obl) // 12)]][:14]
     consulted = sorted(ctx.prog.consulted) or sorted(ctx.prog.modules)
     cov = {
-        "explanation": getattr(mod, "EXPLANATION", "static analysis of the source tree"),
+        "explanation": getattr(mod, "EXPLANATION", "static analysis of the source tree") + "  Rules evaluated on this run: " + "; ".join(f"{k} - {v}" for k, v in ctx.rules.items()),
         "technique": getattr(mod, "TECHNIQUE", "static analysis"),
         "rules": ctx.rules,
         "obligations": len(obl),
